@@ -253,7 +253,9 @@ def body(ctx, case):
 
 
 SUBS = [
-    Sub(name="reduction", body=body, strategy=lambda ctx: case_strategy(ctx), quick=16, thorough=640,
-        lanes=("f64", "f32"), f32_fraction=0.25, quick_shards=2,
+    Sub(name="reduction", body=body, strategy=lambda ctx: case_strategy(ctx), quick=12, thorough=640,
+        lanes=("f64", "f32"), f32_fraction=0.25, quick_shards=3,
         rule="reduced run + unfold vs full-domain twin, fields and co-located detector records inside the light cone"),
 ]
+
+KNOWN_CLASSES = {}
